@@ -6,7 +6,7 @@ For every seeded/<id>[-rN]/ (or the ids given): patch.diff is applied to a scrat
 (VERIF_REPO / PYTHONPATH), and the outcome is written to seeded/REGRESS.json:  id -> {check: "VIOLATION" | "silent" |
 "no-failing-input-found" | "does-not-apply"}.  Nothing is ever applied to /repo itself.
 
-usage: tools/seedregress.py [ids...]
+usage: tools/seedregress.py [ids...] [--also C03,C24]
 """
 import json, os, subprocess, sys, time
 
@@ -20,7 +20,13 @@ def sh(cmd, cwd=None, timeout=3600):
     return p.returncode, p.stdout + p.stderr
 
 
-ids = sys.argv[1:] or sorted(d for d in os.listdir(SEEDED) if os.path.isdir(os.path.join(SEEDED, d)))
+args = sys.argv[1:]
+also = []
+if "--also" in args:  # extra checks to run for the given ids
+    i = args.index("--also")
+    also = [x for x in args[i + 1].split(",") if x]
+    args = args[:i] + args[i + 2:]
+ids = args or sorted(d for d in os.listdir(SEEDED) if os.path.isdir(os.path.join(SEEDED, d)))
 res = json.load(open(OUT)) if os.path.exists(OUT) else {}
 os.makedirs("/tmp/seedwt", exist_ok=True)
 for sid in ids:
@@ -28,6 +34,7 @@ for sid in ids:
     meta = json.load(open(os.path.join(d, "meta.json")))
     recorded = meta.get("checks_on_seeded_tree", {})
     checks = [p for p, r in recorded.items() if r.get("exit") == 1] or [sid.split("-")[0]]
+    checks += [c for c in also if c not in checks]
     wt = f"/tmp/seedwt/{sid}"
     sh(f"git -C /repo worktree remove --force {wt}")
     rc, out = sh(f"git -C /repo worktree add --detach {wt} HEAD")
@@ -59,7 +66,7 @@ for sid in ids:
                 entry[c + ":wall_s"] = round(time.time() - t0, 1)
     finally:
         sh(f"git -C /repo worktree remove --force {wt}")
-    res[sid] = entry
+    res[sid] = {**res.get(sid, {}), **entry} if also else entry
     json.dump(res, open(OUT, "w"), indent=1, sort_keys=True)
     print(sid, entry, flush=True)
 sh("git -C /repo worktree prune")
